@@ -27,7 +27,9 @@ LITS = ["a.cc", "dir/b.cc", "/abs/path/to/file.cpp", "trailing/", "", "/", "a//b
 
 WHERE = {"main": "the main thread", "thread": "a muduo::Thread", "fork": "the child of a fork()",
          "raw0": "a pthread_create'd thread whose first muduo call is this log statement",
-         "raw1": "a pthread_create'd thread that has called CurrentThread::tid() before"}
+         "raw1": "a pthread_create'd thread that has called CurrentThread::tid() before",
+         "worker": "one muduo::Thread that lives for the whole run (what it cached at its previous log statement is still there, "
+                   "while the main thread may have changed the zone or the level in between)"}
 WHERES = list(WHERE)
 
 INT_TYPES = {
@@ -393,9 +395,11 @@ class Prop:
         b.put(b"\n")
         want = bytes(b.data)
         # the cache of the emitting thread as far as the trace shows it (only to *name* a stale second)
-        csec, czone = st["cache"] if where in ("main", "fork") else (0, None)
+        csec, czone = st["cache"] if where in ("main", "fork") else (st.setdefault("wcache", (0, None)) if where == "worker" else (0, None))
         if where == "main" and sec != csec:
             st["cache"] = (sec, zone)
+        if where == "worker" and sec != csec:
+            st["wcache"] = (sec, zone)
         if got == want:
             return None
         if got[17:] == want[17:] and got[:17] != want[:17]:
@@ -587,7 +591,7 @@ class Prop:
         base = [rng.randrange(1000000, 4000000000000000)]
         for _ in range(rng.randrange(2, 14)):
             r = rng.random()
-            where = rng.choice(["main", "main", "main", "thread", "fork", "raw0", "raw1"])
+            where = rng.choice(["main", "main", "main", "thread", "fork", "raw0", "raw1", "worker", "worker"])
             if r < 0.07:
                 lines.append("setlevel %d" % rng.randrange(0, 6))
                 continue
